@@ -11,11 +11,11 @@ RULE = ('C05 scenarios (1-4 posters x 1-6 unique-id events, fifo/lifo mixed, han
         'Checked: every returned post is exactly one append (fifo) / appendleft (lifo) of that event inside its call interval; the dispatch '
         'sequence equals the popleft sequence and a replayed deque model; every posted id dispatched exactly once, none twice, none '
         'unposted; per-poster fifo order; dispatch intervals disjoint and on the object\'s thread; at quiescence the queue is empty (no '
-        'lost wake-up). Every twentieth case is a second opinion on REAL threads with the real primitives (vt/osback.py: nothing substituted, switch interval 1 us, random yields at line starts of miros code): exactly-once, no phantom, steps on the object\'s thread and not overlapping, per-poster order of all-fifo runs; a run that does not drain in the wall-clock limit is inconclusive there. distinct_nontrivial = distinct context-switch sequences of runs that entered a race window')
+        'lost wake-up). Every twentieth case is a second opinion on REAL threads with the real primitives (vt/osback.py: nothing substituted, switch interval 1 us, random yields at line starts of miros code): exactly-once, no phantom, steps on the object\'s thread and not overlapping, per-poster order of all-fifo runs; a run that does not drain in the wall-clock limit is inconclusive there. Every tenth case floods an object whose queue has capacity 2-4 with fifo posts from 1-3 threads while its thread runs: overflow may displace events, but what is dispatched must keep each poster\'s order, once each. distinct_nontrivial = distinct context-switch sequences of runs that entered a race window')
 CASES = {'quick': 1200, 'thorough': 100000}
 BUDGET = {'quick': 150, 'thorough': 300}
-REQUIRE = {'runs_checked': 500, 'runs_with_live_output_on': 60, 'timed_events_expected': 200, 'published_events_expected': 200, 'poster_between_token_put_and_append': 50, 'consumer_between_get_and_popleft': 50, 'events_dispatched': 3000, 'os_backend_runs': 30, 'runs_with_the_subscription_made_twice': 60}
-ASSUME = ['queue capacity (500) is not reached', 'runs cut by the C05 step budget are attributed to C05 and excluded here']
+REQUIRE = {'runs_checked': 500, 'runs_with_live_output_on': 60, 'timed_events_expected': 200, 'published_events_expected': 200, 'poster_between_token_put_and_append': 50, 'consumer_between_get_and_popleft': 50, 'events_dispatched': 3000, 'os_backend_runs': 30, 'runs_with_the_subscription_made_twice': 60, 'overflow_runs_checked': 80, 'events_displaced_by_overflow': 100}
+ASSUME = ['queue capacity (500) is not reached, except in the overflow cases (capacity 2-4), where displaced events may be missing', 'runs cut by the C05 step budget are attributed to C05 and excluded here']
 ANNOUNCE_CASES = True
 
 
@@ -122,9 +122,51 @@ def os_case(ctx, n):
       pass
 
 
+def overflow_order_case(ctx, n):
+  """posters flood an active object whose pending-event queue is SMALL (capacity 2-4) while its thread runs: overflow may displace
+  events (they are then simply never dispatched), but what IS dispatched must keep the order its queue discipline gives - here
+  all posts are fifo, so the events of one poster must be dispatched in the order that poster made them - and nothing may be
+  dispatched twice or out of nowhere"""
+  rng = ctx.rng('overflow', n)
+  cap = rng.choice([2, 3, 4])
+  plans = [[('fifo', 100 * (p + 1) + k) for k in range(rng.randint(4, 10))] for p in range(rng.choice([1, 1, 2, 3]))]
+  nev = sum(len(p) for p in plans)
+  spied, instrumented = rng.random() < 0.5, rng.random() < 0.7
+  result, s, hist, ao = c05.run_scenario(ctx, rng, plans, {}, nev, spied, instrumented, extras={'capacity': cap})
+  wit = {'queue_capacity': cap, 'plans': plans, 'spied': spied, 'instrumented': instrumented, 'policy': s.policy, 'p_switch': s.p_switch, 'switch_trail_tail': s.trail[-30:]}
+  if result['verdict'] is not None:
+    ctx.count('runs_cut_by_c05_verdict')
+    return
+  ctx.count('overflow_runs_checked')
+  if result['thread_exceptions']:
+    ctx.violation('C04/exception-in-thread', 'a thread died: %r' % result['thread_exceptions'], wit)
+    return
+  got = [d['uid'] for d in hist.dispatch if d['sig'] == 'EVT']
+  posted = set(u for pl in plans for _, u in pl)
+  ctx.count('events_displaced_by_overflow', len(posted) - len(set(got)))
+  ctx.distinct(('overflow', cap, len(plans)) + s.signature()[:40])
+  wit['dispatched'] = got
+  dup = sorted(set(u for u in got if got.count(u) > 1))
+  phantom = [u for u in got if u not in posted]
+  if dup or phantom:
+    ctx.violation('C04/dispatched-twice' if dup else 'C04/phantom-dispatch', 'queue of capacity %d under a flood of posts: events %r were dispatched more than once / events %r were never posted' % (cap, dup, phantom), wit)
+    return
+  for pl in plans:
+    mine = [u for u in got if u in set(x for _, x in pl)]
+    if mine != sorted(mine):
+      k = next(i for i in range(len(mine) - 1) if mine[i] > mine[i + 1])
+      ctx.violation('C04/fifo-post-overtook-earlier-event', 'queue of capacity %d under a flood of fifo posts: event %d was dispatched BEFORE event %d, which the same thread had posted earlier (neither was displaced by the overflow: both were dispatched); dispatch order of that poster: %r' % (
+        cap, mine[k], mine[k + 1], mine), wit)
+      return
+  if len(ao.locking_deque.deque) != 0:
+    ctx.count('other_property_disagreements')     # events left behind at quiescence: C05's verdict
+
+
 def run_case(ctx, n):
   if n % 20 == 19:
     return os_case(ctx, n)
+  if n % 10 == 4:
+    return overflow_order_case(ctx, n)
   rng = ctx.rng('case', n)
   plans, fan, nev = c05.gen_plan(rng)
   spied, instrumented = rng.random() < 0.5, rng.random() < 0.7
